@@ -353,6 +353,14 @@ func runC13v4(c *sim.Ctx, clock bool) {
 		return evs[i].ord < evs[j].ord
 	})
 
+	if clock && len(evs) > 0 && evs[0].at < 0 {
+		// (the hostile injector may date fragments before time zero; a clock
+		// that the defragmenter reads itself cannot be set back: shift the run)
+		shift := -evs[0].at
+		for i := range evs {
+			evs[i].at += shift
+		}
+	}
 	// ---- run ----
 	d := ip4defrag.NewIPv4Defragmenter()
 	insts := make([]*inst, nkeys)
